@@ -370,11 +370,18 @@ func runCheck(o *checkOpts) int {
 			fmt.Fprintf(os.Stderr, "%-8s %-7s %5.2fs %s\n", ob.Verdict, ob.Backend, ob.Secs, ob.Name)
 		}
 	}
-	if len(vacuous) > 0 {
+	if len(vacuous) > 0 && len(failing) == 0 {
+		// nothing failed but some path/antecedent became unreachable: the
+		// result would be vacuous, so the property is undecided (tool error).
 		for _, v := range vacuous {
 			fmt.Fprintf(os.Stderr, "TOOL-ERROR: vacuity: %s (%s) is refutable: assumptions inconsistent or path unreachable\n", v.Name, v.Clause)
 		}
 		return 2
+	}
+	for _, v := range vacuous {
+		// with failed obligations present, unreachable paths are a consequence
+		// (e.g. a violated callee precondition) and are only reported.
+		fmt.Fprintf(os.Stderr, "note: %s is unreachable under the assumed callee contracts (consequence of the failed obligations)\n", v.Name)
 	}
 	// violations
 	exit := 0
